@@ -13,7 +13,7 @@ from vlib.schemagen import PRIMS
 class CxGen:
     def __init__(self, model):
         self.m = model
-        self.pkg = model.sch["package"]
+        self.pkg = model.sch.get("schema_name") or model.sch["package"]
         self.lines = []
         self.uid = 0
 
